@@ -59,6 +59,16 @@ theorem tie_uploadConds : uploadConds =
      "if resp.StatusCode == http.StatusOK",
      "if resp.StatusCode >= 300 && response == \"\""] := rfl
 
+/-- what uploadToKeepServer calls, debug output and error-text calls aside: it builds the request,
+does it, reads the replica header and the body — and does not inspect the error of a failed
+exchange (`Http.connErr` is one outcome whatever the error's kind; status 0 in `upload`) -/
+theorem tie_uploadCalls :
+    uploadCalls.filter (fun c => c != "DebugPrintf" && c != "err.Error" && c != "err2.Error") =
+    ["fmt.Sprintf", "http.NewRequest", "ioutil.NopCloser", "req.Header.Add", "req.Header.Add",
+     "req.Header.Add", "req.Header.Add", "fmt.Sprint", "len", "req.Header.Add", "strings.Join",
+     "kc.httpClient().Do", "kc.httpClient", "resp.Header.Get", "fmt.Sscanf", "resp.Body.Close",
+     "io.Copy", "ioutil.ReadAll", "strings.TrimSpace", "string", "errors.New"] := by decide
+
 /-- default replica count 1, body limit 4096 (`bodyLimit`), status-text substitution from 300 -/
 theorem tie_uploadInts : uploadInts = [0, 0, 0, 0, 0, 0, 1, 4096, 300] := rfl
 
@@ -131,6 +141,13 @@ theorem tie_loadConds : loadConds =
 
 /-- the writable map is filled under the read-only test alone (`loadStep`), whatever the type -/
 theorem tie_writableGuard : loadConds.getD 2 "" = "if service.ReadOnly == false" := rfl
+
+/-- loadKeepServers builds four fresh maps from the list, formats the URLs and installs the result;
+it calls nothing else — in particular it does not consult what the client held before
+(`reload`, `C11_reload_last_wins`) -/
+theorem tie_loadRebuilds : loadAllCalls =
+    ["make", "make", "make", "make", "fmt.Sprintf", "kc.setServiceRoots"] ∧ loadInts = [1, 0] :=
+  ⟨rfl, rfl⟩
 
 theorem tie_loadStrings : loadStrings = ["http", "https", "%s://%s:%d", "disk", "disk"] := rfl
 
